@@ -175,6 +175,10 @@ func (w *vWorld) countEvents(kind byte) int {
 
 type vRefPortal struct {
 	stmt *vStmtInfo
+	// the statement it was built from has been closed since: whether the portal
+	// survives (this library) or goes with it (PostgreSQL) is not settled by the
+	// property; the reference follows whichever the implementation does
+	stmtClosed bool
 }
 
 type vRef struct {
@@ -277,8 +281,12 @@ func VerifH06b() {
 	}
 
 	w := vNewWorld(input, 64)
+	// what the ParseFn may answer: 2 = error | one statement; 5 adds a statement
+	// without columns, zero statements and two statements (both errors in Parse)
+	w.parseMenu = vParam("PM", 2)
 	ref := &vRef{stmts: map[string]*vStmtInfo{}, portals: map[string]*vRefPortal{}}
 	sawError, sawSkip := false, false
+	sawMulti := false
 
 	for i := 0; i < K; i++ {
 		evBefore := len(w.events)
@@ -329,6 +337,9 @@ func VerifH06b() {
 			vAssert("parse-consults-parser-once", parses == 1)
 			if w.lastParseErr || len(w.lastParse) != 1 {
 				fail = true
+				if len(w.lastParse) > 1 {
+					sawMulti = true
+				}
 			} else {
 				want = "1"
 				ref.stmts[vNames(a1[i])] = w.lastParse[0]
@@ -351,7 +362,7 @@ func VerifH06b() {
 				}
 			} else {
 				p := ref.portals[vNames(a2[i])]
-				if p == nil {
+				if p == nil || (p.stmtClosed && got == "E") {
 					fail = true
 				} else {
 					want = vDescOf(p.stmt)
@@ -359,7 +370,7 @@ func VerifH06b() {
 			}
 		case 3:
 			p := ref.portals[vNames(a1[i])]
-			if p == nil {
+			if p == nil || (p.stmtClosed && got == "E" && execs == 0) {
 				fail = true
 			} else {
 				vAssert("execute-runs-statement-once", execs == 1)
@@ -373,6 +384,13 @@ func VerifH06b() {
 		case 4:
 			want = "3"
 			if a1[i] == 0 {
+				if st := ref.stmts[vNames(a2[i])]; st != nil {
+					for _, p := range ref.portals {
+						if p.stmt == st {
+							p.stmtClosed = true
+						}
+					}
+				}
 				delete(ref.stmts, vNames(a2[i]))
 			} else {
 				delete(ref.portals, vNames(a2[i]))
@@ -418,6 +436,9 @@ func VerifH06b() {
 	}
 	if sawSkip {
 		vReach("skipped-until-sync")
+	}
+	if sawMulti {
+		vReach("parse-with-several-statements")
 	}
 }
 
